@@ -67,6 +67,7 @@ TNext == l <= Len(Trace) /\ l' = l + 1 /\ rec' = Trace[l] /\ UNCHANGED d
 TraceSpec == TInit /\ [][TNext]_<<d, l, rec>>
 C14 == rec.ev = "obs" =>
    LET e == Expected(rec.desc) IN
+   /\ rec.panic = ""                  \* a rejection is an error value, never a panic
    /\ rec.ok = e.ok
    /\ e.ok => (rec.inp = e.inp /\ rec.out = e.out)
 Accepted == TLCGet("stats").diameter - 1 = Len(Trace)
